@@ -248,6 +248,7 @@ func injectDriver(a *Args) {
 			req.Header.Set("Referer", fmt.Sprintf("https://other.example/doc/%d", ic.N))
 		}
 		rec := httptest.NewRecorder()
+		requested := req.URL.String() // (taken before the handlers run: they share the request's URL value)
 		chains[chainKey{ic.Banner, ic.Shim, ic.Setup}].ServeHTTP(rec, req)
 		got := rec.Body.Bytes()
 		orig := injectWire(ic)
@@ -274,7 +275,7 @@ func injectDriver(a *Args) {
 			wantEnc = "gzip"
 		}
 		reprSame := h.Get("Content-Type") == injectCtype(ic.Ctype) && h.Get("Content-Encoding") == wantEnc
-		frameOK := h.Get("Content-Encoding") == "" && bytes.Contains(got, []byte(`src="`+req.URL.String()+`"`)) && strings.Contains(h.Get("Cache-Control"), "no-store") &&
+		frameOK := h.Get("Content-Encoding") == "" && bytes.Contains(got, []byte(`src="`+requested+`"`)) && strings.Contains(h.Get("Cache-Control"), "no-store") &&
 			strings.EqualFold(h.Get("X-Frame-Options"), "sameorigin") && bytes.Count(got, []byte("<iframe")) == 1
 		c := map[string]interface{}{"method": ic.Method, "accept": ic.Accept, "mode": ic.Mode, "dest": ic.Dest, "referer": ic.Referer, "status": ic.Status,
 			"ctype": ic.Ctype, "dispo": ic.Dispo, "body": ic.Body, "first": ic.First, "banner": ic.Banner, "shim": ic.Shim, "cenc": ic.Cenc, "setup": ic.Setup}
